@@ -223,7 +223,7 @@ impl Prop for Writers {
 impl Writers {
     fn hist_strategy(&self, tier: Tier) -> BoxedStrategy<WriterCase> {
         let maxlen = tier.pick(60usize, 200usize);
-        (3u8..=8, 0u8..4, 1u8..5)
+        (3u8..=8, prop_oneof![10 => 0u8..4, 1 => Just(4u8)], 1u8..5)
             .prop_flat_map(move |(universe, style, usize_stride)| {
                 (vec(0..universe, 0..=6), vec(store_op(universe), 0..=maxlen), vec(any::<u16>(), 0..=6)).prop_map(
                     move |(initial, ops, ext_picks)| WriterCase { universe, style, initial, ops, ext_picks, usize_stride },
